@@ -611,9 +611,10 @@ func (l *commitLog) Truncate(offset int64) error {
 		return nil
 	}
 
-	// Delete all following segments.
+	// Delete all following segments, newest first: if the truncation is cut
+	// short, what is left is still a contiguous log.
 	deleted := 0
-	for i := idx + 1; i < len(l.segments); i++ {
+	for i := len(l.segments) - 1; i > idx; i-- {
 		if err := l.segments[i].Delete(); err != nil {
 			return err
 		}
